@@ -63,6 +63,9 @@ EqChar    == "eq" \in Ops /\ \E i \in DOMAIN pool : \E x \in Symbols : CanDo /\
 \* str_equal(array, s): which rows spell s (s taken from the rows of the array itself, so that matches occur)
 EqStr     == "streq" \in Ops /\ \E i \in DOMAIN pool : \E s \in {pool[i][j] : j \in DOMAIN pool[i]} : CanDo /\ s # <<>> /\
                Same([op |-> "streq", t |-> i, s |-> s], [kind |-> "flags", val |-> [j \in DOMAIN pool[i] |-> pool[i][j] = s]])
+\* str_equal(array, other array with as many rows): which rows spell the same string
+EqArr     == "streq2" \in Ops /\ \E i, k \in DOMAIN pool : CanDo /\ Len(pool[i]) = Len(pool[k]) /\ Len(pool[i]) > 0 /\
+               Same([op |-> "streq2", t |-> i, u |-> k], [kind |-> "flags", val |-> [j \in DOMAIN pool[i] |-> pool[i][j] = pool[k][j]]])
 \* decoding / converting to a string array gives the rows back, whatever view the array is
 Decode_   == "decode" \in Ops /\ \E i \in DOMAIN pool : CanDo /\ Same([op |-> "decode", t |-> i], [kind |-> "rows", val |-> pool[i]])
 Ravel     == "ravel" \in Ops /\ \E i \in DOMAIN pool : CanDo /\ Same([op |-> "ravel", t |-> i], [kind |-> "str", val |-> Flat(pool[i])])
@@ -75,7 +78,7 @@ AssignMask == "setmask" \in Ops /\ \E i \in DOMAIN pool : \E x, y \in Symbols : 
                pool' = [pool EXCEPT ![i] = [j \in DOMAIN @ |-> [q \in DOMAIN @[j] |-> IF @[j][q] = x THEN y ELSE @[j][q]]]]
                /\ prog' = Append(prog, [op |-> "setmask", t |-> i, x |-> x, y |-> y, form |-> fm]) /\ obs' = [kind |-> "array"]
 
-Next == RowSelect \/ ColSelect \/ Concat \/ Copy \/ RowInt \/ ColInt \/ EqChar \/ EqStr \/ Decode_ \/ Ravel \/ AssignRow \/ AssignMask
+Next == RowSelect \/ ColSelect \/ Concat \/ Copy \/ RowInt \/ ColInt \/ EqChar \/ EqStr \/ EqArr \/ Decode_ \/ Ravel \/ AssignRow \/ AssignMask
 Spec == Init /\ [][Next]_vars
 
 \* design invariants: shapes are preserved where NumPy preserves them
